@@ -145,6 +145,9 @@ pub struct HistKnobs {
     pub long_thread_texts: bool,
     /// dedicated run: the history starts with a sentence of more than 2^20 bytes (or characters)
     pub mega: bool,
+    /// thread tier: all raw texts of all clients come from a pool of two texts and all predicts
+    /// go through predictor 0 (repeats within and across threads)
+    pub text_pool: bool,
     pub max_clients: usize,
     pub min_clients: usize,
     pub model: ModelKnobs,
@@ -153,7 +156,7 @@ pub struct HistKnobs {
 
 impl HistKnobs {
     pub fn for_focus(focus: Focus) -> Self {
-        Self { focus, max_ops: 24, min_ops: 1, update_heavy: false, long_thread_texts: false, mega: false, max_clients: 4, min_clients: 1, model: ModelKnobs::default(), max_text: 1_200_000 }
+        Self { focus, max_ops: 24, min_ops: 1, update_heavy: false, long_thread_texts: false, mega: false, text_pool: false, max_clients: 4, min_clients: 1, model: ModelKnobs::default(), max_text: 1_200_000 }
     }
     pub fn miri() -> Self {
         Self {
@@ -163,6 +166,7 @@ impl HistKnobs {
             update_heavy: false,
             long_thread_texts: false,
             mega: false,
+            text_pool: false,
             max_clients: 3,
             min_clients: 2,
             model: ModelKnobs { max_window: 2, max_type_window: 1, core_only: true, extreme_values: false, allow_big_windows: false, max_entries: 3, want_tags: None },
@@ -530,6 +534,29 @@ pub fn gen_plan(rng: &mut Rng, k: &HistKnobs) -> HistPlan {
                     o => o.clone(),
                 })
                 .collect();
+        }
+    }
+    if k.min_clients >= 2 && k.text_pool && !k.long_thread_texts {
+        // thread tier, text-pool plan: the clients' raw texts all come from a pool of two texts of
+        // different lengths and every predict goes through predictor 0. Anything a predictor
+        // shares between callers *keyed on the input* (a memo, a cache of recent results) only
+        // engages when texts repeat within and across threads, which independent random texts
+        // never do; every client must still get the serial result.
+        let (na, nb) = (rng.range(1, k.max_text), rng.range(1, k.max_text));
+        let a = thread_text(rng, na);
+        let mut b = thread_text(rng, nb);
+        if b == a {
+            b.push('b');
+        }
+        let pool = [a, b];
+        for c in clients.iter_mut() {
+            for op in c.iter_mut() {
+                match op {
+                    Op::UpdateRaw { s, .. } | Op::NewRaw { s, .. } => *s = pool[rng.below(2)].clone(),
+                    Op::Predict(q) => *q = 0,
+                    _ => {}
+                }
+            }
         }
     }
     let total: usize = clients.iter().map(|c: &Vec<Op>| c.len()).sum();
